@@ -19,6 +19,8 @@ What is assumed about the environment (`Env`):
   * files are read in text mode (universal newlines); for standard input `stdinUniversal` says whether the
     stream translates newlines (a process: yes; a `StringIO` put in place of `sys.stdin`: no);
   * writing to the opened output never fails; `sys.stdin` is not a terminal (no interactive message);
+  * every report is printed by `main()` with the prefix that is active when the exception leaves `cli()`: since the
+    fixes 0ec5c04 / e014bd6 that is `c ` for a refused command line and for everything the read raises;
   * the three header values `generator`, `copyright`, `url` (cnfgen/info.py; the version comes from git) are
     parameters; `argv` is the list of tokens AFTER `argv[0]`; `draws` are the values the `random` module returns.
 
@@ -65,7 +67,8 @@ inductive Dest where
   deriving DecidableEq, Repr, Inhabited
 
 inductive ErrSrc where
-  /-- `CLIParser.error` → CLIError (refused command line, file that cannot be opened) -/
+  /-- CLIError: `CLIParser.error` (refused command line, file that cannot be opened), or the OSError of a read
+  turned into a CLIError by `cli()` -/
   | parser
   /-- ValueError of the reader / of the transformation, caught by `main()` -/
   | reader
@@ -79,8 +82,6 @@ inductive Outcome where
   /-- nothing on stdout / in the output file, a report on stderr every line of which starts with `pfx`,
   exit status 255 -/
   | cliError (src : ErrSrc) (pfx : String)
-  /-- `main()` swallows an OSError: exit status 0, nothing written, nothing reported -/
-  | silent
   /-- an exception `main()` does not handle: traceback, exit status 1 -/
   | escaped (exc : String)
   /-- not an outcome of the tool: the draw list does not have the shape of the calls the code makes -/
@@ -88,27 +89,24 @@ inductive Outcome where
   deriving DecidableEq, Repr, Inhabited
 
 def exitStatus : Outcome → Nat
-  | .ok _ _ => 0 | .help => 0 | .cliError _ _ => 255 | .silent => 0 | .escaped _ => 1 | .badDraws => 2
+  | .ok _ _ => 0 | .help => 0 | .cliError _ _ => 255 | .escaped _ => 1 | .badDraws => 2
 
 /-! ### the namespace of both tools -/
 
 inductive InArg where
   | stdin
   | file (path : String)
-  /-- the value `[]` (see `ArgV.nil`) -/
-  | nil
   deriving DecidableEq, Repr, Inhabited
 
 inductive OutArg where
   | stdout
   | file (path : String)
-  | nil
   deriving DecidableEq, Repr, Inhabited
 
 structure Args where
   input : InArg := .stdin
   output : OutArg := .stdout
-  /-- `args.seed` (cnfshuffle only): the string given, `none` for `None` and for `[]` -/
+  /-- `args.seed` (cnfshuffle only): the string given, `none` for `None` -/
   seed : Option String := none
   noFlips : Bool := false
   noVperm : Bool := false
@@ -130,23 +128,22 @@ def openWrite (env : Env) (st : Args) (s : String) : Option Args :=
   else if env.writable s then some { st with output := .file s, opened := s :: st.opened }
   else none
 
-/-- the actions of both parsers (a dest the parser does not have is never passed) -/
+/-- the actions of both parsers (a dest the parser does not have is never passed).  `ArgV.nil` — the explicit value
+`--`, for which plain argparse would store `[]` — is refused by `CLIParser._get_values` (fix 3772171: ArgumentError
+"expected one argument", raised where the conversion would take place). -/
 def act (env : Env) (st : Args) (o : Opt) (a : ArgV) : Option Args :=
   if o.dest = "output" then
     (match a with
      | .val s => openWrite env st s
-     | .nil => some { st with output := .nil }
-     | .flag => none)
+     | _ => none)
   else if o.dest = "input" then
     (match a with
      | .val s => (openRead env st s).map (fun i => { st with input := i })
-     | .nil => some { st with input := .nil }
-     | .flag => none)
+     | _ => none)
   else if o.dest = "seed" then
     (match a with
      | .val s => some { st with seed := some s }
-     | .nil => some { st with seed := none }
-     | .flag => none)
+     | _ => none)
   else if o.dest = "no_polarity_flips" then some { st with noFlips := true }
   else if o.dest = "no_variables_permutation" then some { st with noVperm := true }
   else if o.dest = "no_clauses_permutation" then some { st with noCperm := true }
@@ -192,19 +189,15 @@ def generatedOpts (tool : String) : List Opt :=
 
 /-! ### reading the input -/
 
-/-- what reading `args.input` to the end gives: content, newline translation, name of the stream.
-`none`: the value is `[]` -/
-def inputOf (env : Env) (st : Args) : Option (Content × Bool × String) :=
+/-- what reading `args.input` to the end gives: content, newline translation, name of the stream -/
+def inputOf (env : Env) (st : Args) : Content × Bool × String :=
   match st.input with
-  | .nil => none
-  | .stdin => some (env.stdin, env.stdinUniversal, env.stdinName)
-  | .file p =>
-    some ((if st.opened.contains p then .text [] else (env.file p).getD .unreadable), true, p)
+  | .stdin => (env.stdin, env.stdinUniversal, env.stdinName)
+  | .file p => ((if st.opened.contains p then .text [] else (env.file p).getD .unreadable), true, p)
 
-def destOf : OutArg → Option Dest
-  | .stdout => some .stdout
-  | .file p => some (.file p)
-  | .nil => none
+def destOf : OutArg → Dest
+  | .stdout => .stdout
+  | .file p => .file p
 
 /-- the header `BaseCNF.__init__` builds -/
 def baseHeader (env : Env) (description : String) : Shuffle.Header :=
@@ -214,9 +207,7 @@ def toIOHeader (h : Shuffle.Header) : IO.Header := h.map (fun p => (p.1.toList, 
 
 /-- `to_file(args.output, 'dimacs', export_header=args.verbose)` -/
 def writeOut (st : Args) (F : CNF) (hdr : Shuffle.Header) : Outcome :=
-  match destOf st.output with
-  | none => .escaped "AttributeError"
-  | some d => .ok d (IO.renderDimacsText F (if st.verbose then some (toIOHeader hdr) else none) none)
+  .ok (destOf st.output) (IO.renderDimacsText F (if st.verbose then some (toIOHeader hdr) else none) none)
 
 def errOutcome (pfx : String) (e : Err) : Outcome :=
   if e = .valueError then .cliError .reader pfx else .escaped e.name
@@ -225,15 +216,15 @@ def errOutcome (pfx : String) (e : Err) : Outcome :=
 
 def toolArg (off : Bool) : Shuffle.Arg := if off then .fixed else .shuffle
 
-/-- after parsing: `CNF.from_file`, `Shuffle`, `to_file`.  `main()` prints with the empty prefix. -/
+/-- after parsing: `CNF.from_file` inside `with msg_prefix('c ')` (the prefix stays when the read raises; an OSError of
+the read becomes a CLIError: fixes e014bd6, 0ec5c04), then `Shuffle` and `to_file` with the prefix restored -/
 def shuffleBody (env : Env) (st : Args) (draws : List Shuffle.Draw) : Outcome :=
   match inputOf env st with
-  | none => .escaped "AttributeError"
-  | some (.unreadable, _, _) => .silent
-  | some (.undecodable, _, _) => .cliError .reader ""
-  | some (.text s, u, name) =>
+  | (.unreadable, _, _) => .cliError .parser "c "
+  | (.undecodable, _, _) => .cliError .reader "c "
+  | (.text s, u, name) =>
     match IO.readDimacsText u s with
-    | .error e => errOutcome "" e
+    | .error e => errOutcome "c " e
     | .ok F =>
       match Shuffle.run F (toolArg st.noFlips) (toolArg st.noVperm) (toolArg st.noCperm) draws with
       | none => .badDraws
@@ -241,12 +232,12 @@ def shuffleBody (env : Env) (st : Args) (draws : List Shuffle.Draw) : Outcome :=
       | some (.ok G, _) =>
         writeOut st G (Shuffle.shuffleHeader (baseHeader env ("Formula from DIMACS file " ++ name)))
 
-/-- the process `cnfshuffle argv` -/
+/-- the process `cnfshuffle argv`; `parse_args` runs inside `with msg_prefix('c ')` (fix 0ec5c04) -/
 def cnfshuffleRun (env : Env) (argv : List String) (draws : List Shuffle.Draw) : Outcome :=
   match parse shuffleSpec (act env) argv {} with
   | .error .help => .help
-  | .error .error => .cliError .parser ""
-  | .error (.sub _ _ _ _) => .cliError .parser ""      -- unreachable: the parser has no positional
+  | .error .error => .cliError .parser "c "
+  | .error (.sub _ _ _ _) => .cliError .parser "c "      -- unreachable: the parser has no positional
   | .ok st => shuffleBody env st draws
 
 /-! ### kthlist2pebbling -/
@@ -263,13 +254,13 @@ def kthName : List Str → Str
     else []
 
 /-- after parsing, without a transformation: `readGraph(sys.stdin, 'dag', 'kthlist')` inside
-`msg_prefix('c ')` (the prefix stays when the reader raises), `PebblingFormula`, `to_file` -/
+`msg_prefix('c ')` (the prefix stays when the reader raises; an OSError of the read becomes a CLIError: fix e014bd6),
+`PebblingFormula`, `to_file` -/
 def k2pBody (env : Env) (st : Args) : Outcome :=
   match inputOf env st with
-  | none => .escaped "AttributeError"
-  | some (.unreadable, _, _) => .silent
-  | some (.undecodable, _, _) => .cliError .reader "c "
-  | some (.text s, u, _) =>
+  | (.unreadable, _, _) => .cliError .parser "c "
+  | (.undecodable, _, _) => .cliError .reader "c "
+  | (.text s, u, _) =>
     let s' := if u then GraphLex.universalNL s else s
     match GraphFmt.readGraph .dag (.kth (GraphLex.lexKth s')) with
     | .error e => errOutcome "c " e
@@ -286,7 +277,7 @@ def k2pBody (env : Env) (st : Args) : Outcome :=
 def k2pRun (env : Env) (argv : List String) : Option Outcome :=
   match parse k2pSpec (act env) argv {} with
   | .error .help => some .help
-  | .error .error => some (.cliError .parser "")
+  | .error .error => some (.cliError .parser "c ")
   | .error (.sub _ _ _ _) => none
   | .ok st => some (k2pBody env st)
 
